@@ -85,6 +85,9 @@ def plant(work, tag, a, b, scope, snake):
     elif scope == "enum":
         sdl = f"enum PairEnum {{ {a} {b} }}\ntype Query {{ f(e: PairEnum): Int }}\n"
         q = "query PairOp($e: PairEnum) { f(e: $e) }\n"
+    elif scope == "alias_in_fragment":   # one schema field under three response keys: plain, aliased in an inline fragment, aliased in a fragment on the interface
+        sdl = "interface N { val: Int }\ntype T implements N { val: Int other: Int }\ntype Query { t: T }\n"
+        q = f"query PairOp {{ t {{ val ... on T {{ {a}: val }} ...NF }} }}\nfragment NF on N {{ {b}: val }}\n"
     elif scope == "enum_default":   # the member name is written twice: in enums.py and where an input default refers to it
         sdl = f"enum PairEnum {{ {a} {b} }}\ninput PairIn {{ e: PairEnum = {a} l: [PairEnum!] = [{b}, {a}] }}\ntype Query {{ f(i: PairIn): Int }}\n"
         q = "query PairOp($i: PairIn) { f(i: $i) }\n"
@@ -190,6 +193,7 @@ def run(tier, work, replay=None):
              ("Query", "zz", "variables", True), ("QUERY", "zz", "variables", True), ("query_", "zz", "variables", True), ("_query", "zz", "variables", True),
              ("Data", "zz", "variables", True), ("Variables", "zz", "variables", True), ("_response", "zz", "variables", True),
              ("Kwargs", "zz", "variables", True), ("Self", "zz", "variables", True), ("Query", "zz", "variables", False), ("operationName", "zz", "variables", True),
+             ("large", "nodeVal", "alias_in_fragment", True), ("x", "y", "alias_in_fragment", False), ("other", "nodeVal2", "alias_in_fragment", True),
              ("type", "match", "enum_default", True), ("case", "_", "enum_default", True), ("in", "None", "enum_default", True),
              ("name", "value", "enum_default", True), ("RED", "async", "enum_default", False), ("from", "type", "enum_default", True)]
     rnd.shuffle(cand)
@@ -201,9 +205,10 @@ def run(tier, work, replay=None):
                  "digit_after_underscores": bool(re.match(r"_+[0-9]", a) or re.match(r"_+[0-9]", b))}
         fate = o.get("fate")
         sn, tr, rs = {"fields": (snake, True, True), "input": (snake, True, True), "ops": (True, False, False), "enum": (False, False, False),
-                      "variables": (snake, False, False), "enum_default": (False, False, False)}[scope]
+                      "variables": (snake, False, False), "enum_default": (False, False, False),
+                      "alias_in_fragment": (snake, True, True)}[scope]
         pa = None
-        if scope not in ("enum", "enum_default"):
+        if scope not in ("enum", "enum_default", "alias_in_fragment"):
             pa = json.loads(run_py(["-c", f"import json; from ariadne_codegen.utils import process_name as p; print(json.dumps([p({a!r}, convert_to_snake_case={sn}, trim_leading_underscore={tr}, handle_pydantic_resrved_field_names={rs}), p({b!r}, convert_to_snake_case={sn}, trim_leading_underscore={tr}, handle_pydantic_resrved_field_names={rs})]))"]).stdout.strip().splitlines()[-1])
             # do the two names map to ONE Python name (the known silent-merge findings are about exactly those pairs)?
             feats["same_python_name"] = pa[0] == pa[1]
